@@ -196,7 +196,9 @@ class NPProxy:
             a[()] = x
             return a.view(sc.SymArr)
         if _isobj(x):
-            return x
+            # np.asarray of an ndarray subclass instance is a NEW base-class view (same memory, own flags); the
+            # engine's array type is kept, the new-object semantics too
+            return x if type(x) is np.ndarray else x.view(type(x))
         return np.asarray(x, dtype=dtype, **k)
 
     @staticmethod
